@@ -129,7 +129,11 @@ func HarnessC15Open() {
 		verifEdit(path, func(b *bbolt.Bucket) error { return b.Delete(keySchema) })
 	case 3: // schema undecodable
 		verifSmallIndex(path)
-		verifEdit(path, func(b *bbolt.Bucket) error { return b.Put(keySchema, []byte("not a gob stream")) })
+		junk := []byte("not a gob stream")
+		if verifBool("empty-schema-record") {
+			junk = []byte{} // present but empty: nothing to decode is not a schema either
+		}
+		verifEdit(path, func(b *bbolt.Bucket) error { return b.Put(keySchema, junk) })
 	case 4: // row counter missing
 		verifSmallIndex(path)
 		verifEdit(path, func(b *bbolt.Bucket) error { return b.Delete(keyNextRowID) })
@@ -306,6 +310,7 @@ func HarnessC16ReadOnly() {
 		{Expr: &ExprOr{Exprs: []Expression{&ExprEqual{Column: "a", Value: "y"}, &ExprEqual{Column: "b", Value: "p"}}}, GroupBy: []string{"b"}},
 		{Expr: &ExprAnd{Exprs: []Expression{&ExprEqual{Column: "a", Value: "zz"}}}},
 		{Expr: &ExprEqual{Column: "nosuch", Value: "x"}},
+		{Expr: &ExprNot{Expr: &ExprEqual{Column: "a", Value: "zz"}}, GroupBy: []string{"a", "b"}}, // several groups of the first column
 	}
 	n := 1 + verifChoice("nqueries", 3)
 	for i := 0; i < n; i++ {
